@@ -64,7 +64,7 @@ func run(c *core.Ctx) int {
 		recs[k] = append(recs[k], cr)
 	}
 	// fixed minimal histories of the known hazard (one per funcref channel and engine): a sensitivity control in every run
-	for _, ch := range []string{"private-table", "global", "table-grow", "shared-table", "imported-global", "lookup", "in-flight", "failed-instantiation", "failed-instantiation-exit", "engine-close", "engine-close-inflight", "shared-compiled", "shared-compiled-twice", "private-memory"} {
+	for _, ch := range []string{"private-table", "global", "table-grow", "shared-table", "imported-global", "lookup", "in-flight", "failed-instantiation", "failed-instantiation-exit", "engine-close", "engine-close-inflight", "shared-compiled", "shared-compiled-twice", "private-memory", "concurrent-importers"} {
 		for _, comp := range []bool{false, true} {
 			cr := caseRec{Seed: 1, Manual: ch, Compiler: comp}
 			lists[0] = append(lists[0], core.J(cr))
@@ -316,6 +316,11 @@ func newGraph(h *History) *graph {
 		g.named[r] = map[int]int{}
 	}
 	for _, s := range h.Steps {
+		if s.Kind == "concinst" {
+			for i := 0; i < s.N; i++ {
+				g.meta[s.Inst+i] = struct{ rt, slot int }{s.RT, int(s.Args[i])}
+			}
+		}
 		if s.Kind == "inst" {
 			g.meta[s.Inst] = struct{ rt, slot int }{s.RT, s.Slot}
 			if s.Name != "" {
